@@ -884,6 +884,7 @@ class Engine:
         for i in range(200):
             c = make_case(derive(12345, "calib", i), nthreads=1)
             c["impl"] = "null"
+            c["mode"] = "bits"  # no probes at all, including the final one
             for t in c["threads"]:
                 _nullify(t["block"])
             r = run_plain(c)
@@ -924,6 +925,10 @@ class Engine:
 
 
 def _nullify(block):
+    """For calibration: contexts request nothing and the program does no arithmetic of its own (probes and
+    flag-raising statements removed), so that any change of the register between two observations is
+    noise of the interpreter / harness itself."""
+    block[:] = [st for st in block if st[0] not in ("probe", "flags")]
     for st in block:
         if st[0] == "with":
             st[1].clear()
@@ -931,3 +936,6 @@ def _nullify(block):
             _nullify(st[3])
         elif st[0] in ("try", "suppress"):
             _nullify(st[1])
+        elif st[0] == "make":
+            st[2].clear()
+            st[2]["FZ"] = None
